@@ -92,6 +92,8 @@ def make_values(seed, k, ne, h, w, spikes=False, nans=False):
             row = []
             for c in range(w):
                 v = 10000.0 * k + 1000.0 * e + 11.0 * r + 3.0 * c + rng.randint(0, 256) / 64 + 50.0
+                if seed % 2:  # full 53-bit mantissas: text round trips need all 17 significant digits
+                    v += rng.random() / 128
                 if spikes and rng.random() < 0.15:
                     v += rng.choice([400.0, 777.0, -45.0])
                 while v in used:
@@ -408,13 +410,13 @@ class C20(Prop):
 
     def build(self, rng, tier, cmd, **force):
         names = fmt_names()
-        n = force.get("n", rng.choice([1, 1, 2, 2, 2, 3, 3, 4]))
+        n = force.get("n", rng.choice([1, 2, 2, 3, 3, 3, 4, 5] if cmd == "stack" else [1, 1, 2, 2, 2, 3, 3, 4]))
         p_sub = {"quick": 0.05, "thorough": 0.5}[tier]
         mode = force.get("mode", "subproc" if rng.random() < p_sub else "inproc")
         heavy = 0.12 if tier == "quick" else 0.3  # csvdir spawns a process pool per load
         weights = {"npz": 4, "txt": 3, "agilent": 2, "thermo": 2, "csvdir": 8 * heavy}
         pool = [f for f in names for _ in range(max(1, int(10 * weights[f])))]
-        stems = rng.sample(["a", "b", "img", "scan1", "x.v2", "line_3", "Sample", "t0"], n)
+        stems = rng.sample(["a", "b", "img", "scan1", "x.v2", "line_3", "Sample", "t0", "q"], n)
         subs = [rng.choice(["", "", "in1", "in2"]) for _ in range(n)]
         equal = rng.random() < 0.3
         shape = None
@@ -523,6 +525,20 @@ class C20(Prop):
         for fmt in fmt_names():
             rng = random.Random(f"C20-targeted-fmt-{fmt}")
             yield self.build(rng, "quick", "convert", n=1, okind="omitted", format=".npz", mode="inproc", fmt=fmt)
+        if "csvdir" in fmt_names():  # bcc3a26: a Nu directory with x/y columns reports an (x, y) spot spacing
+            for cmd, suffix in (("convert", ""), ("filter", ".d")):
+                yield {"cmd": cmd, "mode": "inproc", "format": ".npz", "output": None, "missing_input": False, "relative": False,
+                       "config": None, "elements": None, "filter": {"type": "median", "size": 3, "threshold": 0.5},
+                       "inputs": [{"fmt": "csvdir", "suffix": suffix, "h": 3, "w": 4, "elements": ["A", "B"], "vendor": "nu", "xy": True,
+                                   "nans": False, "stem": "nu", "sub": "", "seed": 11, "spikes": True}]}
+        # three inputs, the middle one the largest on the other axis; all sizes different
+        for orient in ("vertical", "horizontal"):
+            def inp(k, stem, h, w):
+                return {"fmt": "txt", "suffix": ".txt", "h": h, "w": w, "elements": ["_element_"], "delimiter": ",", "nans": False,
+                        "stem": stem, "sub": "", "seed": 20 + k, "spikes": False}
+            yield {"cmd": "stack", "mode": "inproc", "inputs": [inp(0, "a", 2, 3), inp(1, "b", 4, 5), inp(2, "img", 3, 1)],
+                   "format": ".csv", "output": {"kind": "file", "sub": "", "name": "st.csv"}, "missing_input": False,
+                   "relative": False, "orientation": orient, "pad": "nan"}
 
     @staticmethod
     def regression_case(orient, mode):
